@@ -25,6 +25,7 @@ The functions get the value of the data type as string and return the correct ob
 """
 
 from __future__ import absolute_import
+import re
 from decimal import Decimal, InvalidOperation
 from types import FunctionType
 
@@ -295,6 +296,9 @@ def numeric_factory(value, datatype_cls, validation_level=None):
     """
     if not value:
         return datatype_cls(validation_level=validation_level)
+    if not _matches(r'^[+-]?([0-9]+\.?[0-9]*|\.[0-9]+)\Z', value):
+        # Decimal() also accepts exponents, NaN, Infinity, underscores, blanks and non-ASCII digits
+        raise ValueError('{0} is not an HL7 valid NM value'.format(value))
     try:
         return datatype_cls(Decimal(value), validation_level=validation_level)
     except InvalidOperation:
@@ -325,10 +329,20 @@ def sequence_id_factory(value, datatype_cls, validation_level=None):
     """
     if not value:
         return datatype_cls(validation_level=validation_level)
+    if not _matches(r'^\+?[0-9]+\Z', value):
+        # int() also accepts negative numbers, underscores, blanks and non-ASCII digits
+        raise ValueError('{0} is not an HL7 valid SI value'.format(value))
     try:
         return datatype_cls(int(value), validation_level=validation_level)
     except ValueError:
         raise ValueError('{0} is not an HL7 valid SI value'.format(value))
+
+
+def _matches(pattern, value):
+    try:
+        return re.match(pattern, value) is not None
+    except TypeError:  # not a string (e.g. a number): the datatype class decides
+        return True
 
 
 if __name__ == '__main__':
